@@ -123,6 +123,24 @@ def module_uid(sym, n, nparts, with_dir):
     sym.check("context", d["context"] == (parts[3] if nparts >= 4 else ""))
 
 
+def module_uid_history(sym, nparts):
+    """a UID parsed a second time gives the parts of its own text, whatever was parsed before and whatever the caller did with
+    the earlier result"""
+    pa, canon_a, text_a = uid_parts(sym, 2, nparts, False)
+    m = Modules()
+    first = Modules.parse_uid(text_a)
+    first["module_name"] = "edited"
+    first["stream"] = "edited"
+    uid, d = m._check_uid(text_a)
+    sym.cover("parsed")
+    sym.check("canonical-uid", uid == canon_a)
+    sym.check("name", d["module_name"] == pa[0])
+    sym.check("stream", d["stream"] == pa[1])
+    d["version"] = "edited"
+    again = Modules.parse_uid(text_a)
+    sym.check("version-again", again["version"] == (pa[2] if nparts >= 3 else ""))
+
+
 def module_uid_refused(sym, n):
     """anything without a stream, or not a string, is refused with ValueError"""
     text = sym.str("uid", n)
@@ -336,6 +354,8 @@ def jobs(tier, seed):
         for wd in (False, True):
             out.append({"harness": "module_uid", "params": {"n": n, "nparts": nparts, "with_dir": wd}})
     out.append({"harness": "module_uid_refused", "params": {"n": 16 if big else 10}})
+    for nparts in (2, 3, 4):
+        out.append({"harness": "module_uid_history", "params": {"nparts": nparts}})
     for pre in (0, 1, 2):
         for ui in range(len(UIDS)):
             for rk in (("list", "tuple", "empty", "str", "none") if big else ("list", "tuple", "str")):
@@ -366,7 +386,7 @@ def jobs(tier, seed):
 
 
 META = {
-    "expected_covers": {"rpms_step": ["called", "accepted"], "module_uid": ["parsed"], "module_uid_refused": ["called"],
+    "expected_covers": {"rpms_step": ["called", "accepted"], "module_uid": ["parsed"], "module_uid_history": ["parsed"], "module_uid_refused": ["called"],
                         "modules_step": ["called", "accepted"], "extra_step": ["called", "accepted"],
                         "modules_shared_list": ["called"], "extra_shared_dict": ["called"], "relative_inside": ["called"], "relative_outside": ["called"], "dump_for_tree": ["dumped"]},
     "assumptions": [
